@@ -62,10 +62,12 @@ PROPS["C10"] = engine_prop("C10", ["proofs/AnchorsSitesFlags.v"], "C10",
     "Retract/Complete control effects proved over the abstract engine (retraction flags are a function of the Retract calls made so far); rule sets "
     "retracting self/other/unknown names and completing at any action position are replayed on the real engine.")
 PROPS["C11"] = dict(
-    proof_files=ENGINE_FILES + ["props/C11.v"], props_files=["props/C11.v"], harness="C11", theorems=["C11"],
+    proof_files=ENGINE_FILES + ["props/C11.v"], props_files=["props/C11.v"], harness="C11", theorems=["C11", "C11_semantic"],
     trusted=ENGINE_TRUST, assumptions=ENGINE_ASSUME,
     explanation="C11 (exact set, no duplicates, non-increasing salience for any stable-sort comparison satisfying the extracted anchor, no action parameter) "
-                "is proved over the abstract FetchMatchingRules; generated rule sets are fetched on the real engine, also after an Execute on the same instance.")
+                "is proved over the abstract FetchMatchingRules; C11_semantic transports it to the engine with its working memory from any memory contents: the result is "
+                "exactly the non-removed rules whose condition evaluated from scratch on the given facts is true (side-effect free conditions). Generated rule sets are "
+                "fetched on the real engine, also after an Execute on the same instance.")
 PROPS["C15"] = engine_prop("C15", ["proofs/AnchorsSitesCtx.v"], "C15",
     "for every index of the first ctx.Err() call that sees the cancellation: no action list starts after a check saw it, a pre-cancelled context fires "
     "nothing, nil is returned only if no check (including the exit-path check) saw it; every cancellation position of generated runs is replayed on the "
@@ -97,6 +99,7 @@ def eval_prop(pid, extra, theorems, expl):
     return dict(proof_files=REFINE_FILES + extra + ["props/%s.v" % pid], props_files=["props/%s.v" % pid], harness=pid, theorems=theorems,
                 trusted=EVAL_TRUST, assumptions=EVAL_ASSUME, explanation=expl)
 
+PROPS["C11"]["proof_files"] = REFINE_FILES + ["props/C11.v"]
 PROPS["C01"] = eval_prop("C01", ["proofs/AnchorsSitesMemo.v"], ["C01", "C01_flat", "C01_hypothesis_needed"],
     "C01 is proved for the engine model WITH its working memory started from arbitrary memory contents, for every budget, flag, cancellation point and "
     "map order: engine_refines_spec (the memoising run equals the run that evaluates everything from scratch) + state tracking of the from-scratch run "
